@@ -388,7 +388,7 @@ func (c *Ctx) report(sub string, f *Fail, args any, again func() *Fail) {
 			// Not reproducible alone, neither here nor in fresh processes. The cases of a check run on 16 goroutines, so
 			// the remaining explanation inside the library is state shared between concurrent calls (a package-level
 			// scratch buffer, an unsynchronised table). Run the same case on 8 goroutines at once, in 3 independent
-			// batches of 40 rounds; it is reported only if every batch sees the failure again.
+			// batches of up to 4 s each; it is reported only if every batch sees the failure again.
 			if cf := concurrentConfirm(again, f.Key); cf != nil {
 				cf.Detail = "fails only while other calls run concurrently (3 of 3 batches of 8 simultaneous executions; never alone, never in a fresh process): state shared between calls. " + cf.Detail
 				f = cf
@@ -431,7 +431,8 @@ func concurrentConfirm(again func() *Fail, key string) *Fail {
 	for batch := 0; batch < 3; batch++ {
 		var mu sync.Mutex
 		var got *Fail
-		for round := 0; round < 40 && got == nil; round++ {
+		t0 := time.Now()
+		for round := 0; round < 4000 && got == nil && time.Since(t0) < 4*time.Second; round++ {
 			var wg sync.WaitGroup
 			for g := 0; g < 8; g++ {
 				wg.Add(1)
